@@ -33,4 +33,8 @@ deriving Repr
 inductive Phase | scan | migrate | reconcile
 deriving DecidableEq, Repr
 
+/-- `MetadataStore` methods that change which tiers a measurement has rows in. -/
+inductive Mutator | recordFile | updateTier | deleteFile
+deriving DecidableEq, Repr
+
 end Arc.C12
